@@ -709,9 +709,19 @@ let () =
          let pre = parse_dump pre_s and post = parse_dump post_s in
          let tpre = table_of_dump pre and tpost = table_of_dump post in
          let opname = List.hd opws in
+         let big = List.mem "BIG" pre.d_flags || List.mem "BIG" post.d_flags in
+         if big then bump branch "table_too_big_to_dump";
+         let do_b = do_b && not big and do_c = do_c && not big and do_a = do_a && not big in
          let is_serde = String.length opname >= 6 && String.sub opname 0 6 = "serde_" in
          let is_par = (String.length opname >= 4 && String.sub opname 0 4 = "par_") || opname = "into_par_iter" || is_serde in
-         if opname = "serde_de" then begin
+         if opname = "serde_de" then
+           (match words ev_s with
+            | first :: _ when String.length first > 2 && String.sub first 0 2 = "A:" ->
+              let sz = int_of_string (List.nth (String.split_on_char ':' first) 1) in
+              let bound = 8192 * (int_of_string (string_of_z cfg.tsize)) + 8192 + 64 in
+              if sz > bound then say "A-FAIL %s: pre-allocation of %d bytes for a claimed size hint (bound %d)" where sz bound
+            | _ -> ());
+         if opname = "serde_de" && not big then begin
            let hint = (match List.nth opws 1 with "none" -> None | h -> Some (zs h)) in
            let err_at = (match List.nth opws 2 with "-" -> None | p -> Some (nat_of_int (int_of_string p))) in
            let items = List.map parse_kv3 (List.filteri (fun j _ -> j >= 3) opws) in
@@ -738,13 +748,6 @@ let () =
                  (String.concat "," (sorted_kvs want)) (String.concat "," (sorted_kvs (occupants tpost)));
              spec := occupants tpost
            end;
-           (* the allocation made before the first element is bounded whatever the hint claims *)
-           (match words ev_s with
-            | first :: _ when String.length first > 2 && String.sub first 0 2 = "A:" ->
-              let sz = int_of_string (List.nth (String.split_on_char ':' first) 1) in
-              let bound = 8192 * (int_of_string (string_of_z cfg.tsize)) + 8192 + 64 in
-              if sz > bound then say "A-FAIL %s: pre-allocation of %d bytes for a claimed size hint (bound %d)" where sz bound
-            | _ -> ());
            bump branch (if fails then "serde_error_path" else "serde_ok_path")
          end;
          if opname = "serde_roundtrip" then begin
